@@ -20,6 +20,13 @@ theorem C02_int (c : EncCfg) (i : Int) :
   refine ⟨intStr i, by simp [encodeValue, encodeSimple], ?_⟩
   exact C03_int_literal omniDec (by simp [omniDec]) i
 
+/-- **C02, finite reals**: whatever encoder wrote the real, the default decoder reads back the same text -/
+theorem C02_real (c : EncCfg) (ch : Nat) (r : Str) (hc : RealHead ch) (h35 : 35 ∉ ch :: r)
+    (hf : floatOk (ch :: r) = true) (hi : int10 (ch :: r) = none) :
+    ∃ text, encodeValue c (.real (ch :: r)) = .ok text ∧ decodeSimple omniDec text = .ok (.real (ch :: r)) :=
+  ⟨ch :: r, by simp [encodeValue, encodeSimple],
+    C03_real_literal omniDec (by simp [omniDec]) ch r hc h35 hf hi⟩
+
 /-- **C02, constants**: the keywords each of the five tables writes for `None`, `True`, `False` are read by
     the default decoder as those constants -/
 theorem C02_keywords :
